@@ -925,7 +925,7 @@ class RTCSctpTransport(AsyncIOEventEmitter):
 
         # consolidate misordered entries
         self._sack_misordered.add(tsn)
-        for tsn in sorted(self._sack_misordered):
+        for tsn in self._sorted_misordered():
             if tsn == tsn_plus_one(self._last_received_tsn):
                 self._last_received_tsn = tsn
             else:
@@ -938,6 +938,16 @@ class RTCSctpTransport(AsyncIOEventEmitter):
         self._sack_duplicates = list(filter(is_obsolete, self._sack_duplicates))
         self._sack_misordered = set(filter(is_obsolete, self._sack_misordered))
         return False
+
+    def _sorted_misordered(self) -> list[int]:
+        """
+        Return the misordered TSNs in serial order, i.e. sorted by their
+        distance from the cumulative TSN, so that ordering survives TSN wraparound.
+        """
+        base = self._last_received_tsn
+        return sorted(
+            self._sack_misordered, key=lambda tsn: (tsn - base) % SCTP_TSN_MODULO
+        )
 
     async def _receive(self, stream_id: int, pp_id: int, data: bytes) -> None:
         """
@@ -1131,7 +1141,7 @@ class RTCSctpTransport(AsyncIOEventEmitter):
         # advance cumulative TSN
         self._last_received_tsn = chunk.cumulative_tsn
         self._sack_misordered = set(filter(is_obsolete, self._sack_misordered))
-        for tsn in sorted(self._sack_misordered):
+        for tsn in self._sorted_misordered():
             if tsn == tsn_plus_one(self._last_received_tsn):
                 self._last_received_tsn = tsn
             else:
@@ -1396,7 +1406,7 @@ class RTCSctpTransport(AsyncIOEventEmitter):
         """
         gaps: list[list[int]] = []
         gap_next = None
-        for tsn in sorted(self._sack_misordered):
+        for tsn in self._sorted_misordered():
             pos = (tsn - self._last_received_tsn) % SCTP_TSN_MODULO
             if tsn == gap_next:
                 gaps[-1][1] = pos
